@@ -804,6 +804,11 @@ func (e *Engine) lookupMethod(t types.Type, m *types.Func) *ssa.Function {
 	return e.prog.LookupMethod(t, m.Pkg(), m.Name())
 }
 
+func (e *Engine) loadSym(t types.Type, x V) V {
+	se := x.P.(*symElem)
+	return e.selectElem(se.s, se.idx, t)
+}
+
 func (e *Engine) load(t types.Type, p *V) V {
 	if p == nil {
 		e.targetPanicStr("invalid memory address or nil pointer dereference")
@@ -991,7 +996,13 @@ func (e *Engine) visit(fr *frame, instr ssa.Instruction) continuation {
 		default:
 			panic(fmt.Sprintf("IndexAddr on kind %d", x.K))
 		}
-		i := e.index(fr.get(instr.Index), instr.Index.Type(), len(s))
+		idx := fr.get(instr.Index)
+		if idx.K == KSym && len(s) > 1 && onlyLoaded(instr) && allScalar(s) {
+			e.boundsCheck(idx.term(), len(s))
+			fr.set(instr, V{K: KSymElem, P: &symElem{s: s, idx: idx.term()}})
+			break
+		}
+		i := e.index(idx, instr.Index.Type(), len(s))
 		fr.set(instr, vPtr(&s[i]))
 
 	case *ssa.Index:
@@ -999,17 +1010,16 @@ func (e *Engine) visit(fr *frame, instr ssa.Instruction) continuation {
 		switch x.K {
 		case KArray:
 			s := x.P.([]V)
-			i := e.index(fr.get(instr.Index), instr.Index.Type(), len(s))
+			idx := fr.get(instr.Index)
+			if idx.K == KSym && len(s) > 1 && allScalar(s) {
+				e.boundsCheck(idx.term(), len(s))
+				fr.set(instr, e.selectElem(s, idx.term(), instr.Type()))
+				break
+			}
+			i := e.index(idx, instr.Index.Type(), len(s))
 			fr.set(instr, copyVal(s[i]))
-		case KStr:
-			str := x.P.(string)
-			i := e.index(fr.get(instr.Index), instr.Index.Type(), len(str))
-			fr.set(instr, vUint(uint64(str[i])))
-		case KSymStr:
-			ss := x.P.(*SymStr)
-			e.inspect(ss)
-			i := e.index(fr.get(instr.Index), instr.Index.Type(), len(ss.B))
-			fr.set(instr, ss.B[i])
+		case KStr, KSymStr:
+			fr.set(instr, e.strIndex(x, fr.get(instr.Index), instr.Index.Type()))
 		default:
 			panic(fmt.Sprintf("Index on kind %d", x.K))
 		}
@@ -1061,11 +1071,86 @@ func (e *Engine) index(idx V, t types.Type, n int) int {
 		return int(i)
 	}
 	tm := idx.term()
+	e.boundsCheck(tm, n)
+	return int(e.concretize(tm))
+}
+
+// boundsCheck forks on 0 <= idx < n; the out-of-range side panics.
+func (e *Engine) boundsCheck(tm *Term, n int) {
+	if uint64(n) > mask(tm.W) {
+		return // every value of this width is in range
+	}
 	inRange := e.ts.Cmp(OpUlt, tm, e.ts.Const(uint64(n), tm.W))
 	if !e.branch(inRange) {
 		e.targetPanicStr(fmt.Sprintf("index out of range [symbolic] with length %d", n))
 	}
-	return int(e.concretize(tm))
+}
+
+// symElem is the address of s[idx] for a symbolic idx; it can only be loaded from.
+type symElem struct {
+	s   []V
+	idx *Term
+}
+
+func onlyLoaded(instr *ssa.IndexAddr) bool {
+	refs := instr.Referrers()
+	if refs == nil || len(*refs) == 0 {
+		return false
+	}
+	for _, r := range *refs {
+		u, ok := r.(*ssa.UnOp)
+		if !ok || u.Op != token.MUL {
+			if _, isDbg := r.(*ssa.DebugRef); isDbg {
+				continue
+			}
+			return false
+		}
+	}
+	return true
+}
+
+func allScalar(s []V) bool {
+	if len(s) > 4096 {
+		return false
+	}
+	for _, x := range s {
+		if x.K != KInt && x.K != KSym {
+			return false
+		}
+	}
+	return true
+}
+
+// selectElem builds ite(idx==0, s[0], ite(idx==1, s[1], ...)) for scalar elements.
+func (e *Engine) selectElem(s []V, idx *Term, elemT types.Type) V {
+	w, signed, ok := basicInfo(elemT)
+	if !ok {
+		panic("selectElem: element type " + elemT.String())
+	}
+	n := len(s)
+	if uint64(n-1) > mask(idx.W) {
+		n = int(mask(idx.W)) + 1
+	}
+	// run-length grouping: consecutive indices holding the same value share one range test
+	type run struct {
+		hi int
+		t  *Term
+	}
+	var runs []run
+	for i := 0; i < n; i++ {
+		t := e.toTermW(s[i], w)
+		if len(runs) > 0 && runs[len(runs)-1].t == t {
+			runs[len(runs)-1].hi = i
+			continue
+		}
+		runs = append(runs, run{i, t})
+	}
+	res := runs[len(runs)-1].t
+	for k := len(runs) - 2; k >= 0; k-- {
+		// runs are tested in ascending order, so idx <= hi suffices
+		res = e.ts.Ite(e.ts.Cmp(OpUle, idx, e.ts.Const(uint64(runs[k].hi), idx.W)), runs[k].t, res)
+	}
+	return e.fromTerm(res, signed)
 }
 
 const hugeAlloc = 1 << 24
